@@ -73,6 +73,60 @@ def do_api(f):
         return 'ERR ' + type(e).__name__
 
 
+def _cs(n):
+    if n < 253:
+        return bytes([n])
+    if n <= 0xffff:
+        return b'\xfd' + n.to_bytes(2, 'little')
+    return b'\xfe' + n.to_bytes(4, 'little')
+
+
+def do_apif(form, f):
+    """the fields of an `api` request handed over in alternative argument forms (see harness/props/c06.py)"""
+    from bitcoinlib.transactions import Input, Output
+    wf, pf, sf, cf, nf = form
+    v, lt, sw, ins, outs = f.split(';')
+    wt = 'segwit' if sw == '1' else 'legacy'
+    try:
+        t = Transaction(version=int(v), locktime=int(lt), witness_type=wt) if cf == 'a' else None
+        li, lo = [], []
+        for k, s in enumerate([] if ins == '-' else ins.split('|')):
+            p, n, sc, q, w = s.split(':')
+            items = None if w == '' else [unhx(x) for x in w.split(',')]
+            if items is None:
+                wit = None
+            elif wf == 'l':
+                wit = items
+            elif wf == 't':
+                wit = tuple(items)
+            elif wf == 'h':
+                wit = [x.hex() for x in items]
+            else:
+                wit = _cs(len(items)) + b''.join(_cs(len(x)) + x for x in items)
+            prev = unhx(p) if pf == 'b' else unhx(p).hex()
+            us = unhx(sc) if sf == 'b' else unhx(sc).hex()
+            n, q = (int(n), int(q)) if nf == 'i' else (int(n).to_bytes(4, 'big'), int(q).to_bytes(4, 'little'))
+            if cf == 'a':
+                t.add_input(prev_txid=prev, output_n=n, unlocking_script=us, sequence=q, witnesses=wit, strict=False)
+            else:
+                li.append(Input(prev_txid=prev, output_n=n, unlocking_script=us, sequence=q, witnesses=wit,
+                                index_n=k, strict=False))
+        for k, s in enumerate([] if outs == '-' else outs.split('|')):
+            val, sc = s.split(':')
+            ls = unhx(sc) if sf == 'b' else unhx(sc).hex()
+            if cf == 'a':
+                t.add_output(int(val), lock_script=ls, strict=False)
+            else:
+                lo.append(Output(int(val), lock_script=ls, output_n=k, strict=False))
+        if cf == 'o':
+            t = Transaction(inputs=li, outputs=lo, version=int(v), locktime=int(lt), witness_type=wt)
+        return '%s %s' % (hx(t.raw()), tok_tx(t))
+    except RecursionError:
+        raise
+    except Exception as e:
+        return 'ERR ' + type(e).__name__
+
+
 def do_block(raw):
     try:
         b = Block.parse_bytes(raw, parse_transactions=True)
@@ -172,6 +226,8 @@ def dispatch(t):
         return do_tx(unhx(t[2]))
     if k == 'api':
         return do_api(t[1])
+    if k == 'apif':
+        return do_apif(t[1], t[2])
     if k == 'block':
         return do_block(unhx(t[1]))
     if k == 'target':
